@@ -72,3 +72,11 @@ Theorem C03_list_is_slice : forall s c i,
     end.
 Proof. exact list_local_refines_plain. Qed.
 Print Assumptions C03_list_is_slice.
+
+(* Document: the tree created for a value — any nesting of objects and arrays — reads back as exactly that value
+   (object members in key order, as the implementation shows them) *)
+From Orda.Model Require Import Doc.
+From Orda.Proofs Require Import DocFacts.
+Theorem C03_document_value_reads_back : forall t v, canon v -> forall i, jview (fst (create t v i)) = v.
+Proof. exact create_view. Qed.
+Print Assumptions C03_document_value_reads_back.
